@@ -214,7 +214,7 @@ fn compile_output_block(
         .map(compile_value)
         .collect::<Result<Vec<_>, _>>()?;
 
-    let value = asset_math::aggregate_values(values);
+    let value = asset_math::try_aggregate_values(values)?;
 
     let datum_option = ir.datum.as_option().map(compile_data_expr).transpose()?;
 
@@ -248,7 +248,7 @@ fn compile_mint_block(tx: &tir::Tx) -> Result<Option<primitives::Mint>, Error> {
         .map(|x| compile_native_asset_for_mint(x, false))
         .collect::<Result<Vec<_>, _>>()?;
 
-    let mints = asset_math::aggregate_assets(mints);
+    let mints = asset_math::aggregate_assets(mints)?;
 
     let burns = tx
         .burns
@@ -260,10 +260,10 @@ fn compile_mint_block(tx: &tir::Tx) -> Result<Option<primitives::Mint>, Error> {
         .map(|x| compile_native_asset_for_mint(x, true))
         .collect::<Result<Vec<_>, _>>()?;
 
-    let burns = asset_math::aggregate_assets(burns);
+    let burns = asset_math::aggregate_assets(burns)?;
 
     let all = match (mints, burns) {
-        (Some(mints), Some(burns)) => asset_math::aggregate_assets([mints, burns]),
+        (Some(mints), Some(burns)) => asset_math::aggregate_assets([mints, burns])?,
         (Some(mints), None) => Some(mints),
         (None, Some(burns)) => Some(burns),
         (None, None) => None,
@@ -342,7 +342,7 @@ pub fn compile_cardano_publish_directive(
         .iter()
         .map(compile_value)
         .collect::<Result<Vec<_>, _>>()?;
-    let value = asset_math::aggregate_values(values);
+    let value = asset_math::try_aggregate_values(values)?;
 
     let datum_option = adhoc.data.get("datum").map(compile_data_expr).transpose()?;
 
